@@ -31,10 +31,16 @@ MODEL_OPS = [
     "phase_global", "phase_sync", "add", "sub", "mul", "align_axes", "tensordot_blockwise",
     "tensordot_fused", "tensordot", "qr", "svd", "svd_truncated", "eigh", "solve",
 ]
+# operations of the second table `SymmModel.Model.Heap2` (driver kind "heapOp2"); none has an in-place form
+MODEL_OPS2 = [
+    "observe1", "observe2", "get_params", "reduce", "to_dense", "allclose", "trace", "trace_flip", "clip",
+    "einsum", "einsum_scalar", "matmul", "matmul_flip", "matmul_scalar", "matmul_flip_scalar", "construct",
+    "from_fill",
+]
 ALWAYS_INPLACE = {"modify", "apply_to_arrays", "map_blocks", "set_params", "fill_missing_blocks",
                   "drop_missing_blocks"}
 NO_FLAG = {"copy", "copy_with", "copy_with_indices", "tensordot_blockwise", "tensordot_fused",
-           "tensordot", "qr", "svd", "svd_truncated", "eigh", "solve"}
+           "tensordot", "qr", "svd", "svd_truncated", "eigh", "solve"} | set(MODEL_OPS2)
 
 
 def _is_arr(x):
@@ -186,7 +192,126 @@ def build_calls(rng, sym, fermi):
         add("solve", "solve", [hm.copy(), bvec], lambda ip, a, b: sr.linalg.solve(a, b))
     except Exception:  # noqa  (construction of a hermitian operand may fail for odd charges)
         pass
+    build_calls2(rng, sym, fermi, static, arr, add)
     return calls
+
+
+def build_calls2(rng, sym, fermi, static, arr, add):
+    """second table (`Model/Heap2.lean`) and the public operations that are instances of an existing model
+    operation but were not exercised: block-vector arithmetic (in place and reflected), `@`"""
+    import symmray as sr
+
+    def none(f):
+        return lambda ip, *xs: (f(*xs), None)[1]
+
+    # read-only methods: nothing may change, nothing is returned that could alias
+    for label, f in [("norm", lambda x: x.norm()), ("linalg.norm", lambda x: sr.linalg.norm(x)),
+                     ("check", lambda x: x.check()), ("sectors", lambda x: x.sectors),
+                     ("get_sparsity", lambda x: x.get_sparsity()),
+                     ("is_valid_sector", lambda x: [x.is_valid_sector(s) for s in x.sectors]),
+                     ("gen_valid_sectors", lambda x: list(x.gen_valid_sectors())),
+                     ("repr/str", lambda x: (repr(x), str(x))),
+                     ("check_chargemaps_aligned", lambda x: x.sync_charges().check_chargemaps_aligned())]:
+        add("observe1", label, [arr()], none(f))
+    x = arr()
+    add("observe1", "BlockVector.to_dense/check/size", [gen.rand_vec(rng, x.indices[0], keep=1.0)],
+        none(lambda v: (v.check(), v.to_dense(), v.size, v.shape, v.norm())))
+    for label, f in [("sum", lambda x: x.sum()), ("max", lambda x: x.max()), ("min", lambda x: x.min()),
+                     ("any", lambda x: x.any()), ("all", lambda x: x.all())]:
+        add("reduce", label, [arr()], none(f))
+    add("to_dense", "to_dense", [arr()], none(lambda x: x.to_dense()))
+    x = arr()
+    y = x.copy()
+    y.apply_to_arrays(lambda b: b + 1)
+    if fermi:
+        gen.add_pending(rng, y)
+    add("allclose", "allclose", [x, y], none(lambda x, y: x.allclose(y)))
+    x = arr()
+    add("allclose", "allclose (same object twice)", [x, x], none(lambda x, y: x.allclose(y)))
+    add("get_params", "get_params", [arr()], lambda ip, x: x.get_params())
+    add("clip", "clip", [arr()], lambda ip, x: x.clip(-0.5, 0.5))
+    x = arr(3)
+    add("einsum", "einsum(permutation)", [x], lambda ip, x: x.einsum("abc->cab"))
+    m = arr(2)
+    try:
+        hm = sr.tensordot(m, m.dagger(), axes=1, preserve_array=True)
+        if fermi:
+            gen.add_pending(rng, hm)
+        flip = fermi and (not hm.indices[0].dual) and hm.indices[1].dual
+        add("trace_flip" if flip else "trace", "trace", [hm], none(lambda a: a.trace()))
+        add("einsum_scalar", "einsum(aa->)", [hm.copy()], none(lambda a: a.einsum("aa->")))
+        x3 = sr.tensordot(hm, arr(1), axes=0, preserve_array=True)
+        add("einsum", "einsum(aab->b)", [x3], lambda ip, a: a.einsum("aab->b"))
+    except Exception:  # noqa
+        pass
+    # `@`: fermionic → `matmulF`; abelian → `_tensordot_blockwise`
+    for na, nb in [(2, 2), (2, 1), (1, 2), (1, 1)]:
+        a = arr(na)
+        ixs = (a.indices[-1].conj(),) + tuple(gen.rand_index(rng, sym, 3, 2) for _ in range(nb - 1))
+        b = gen.rand_array(rng, sym, indices=ixs, fermi=fermi, static=static, pending=fermi,
+                           label=rng.randint(51, 90))
+        scalar = na == 1 and nb == 1
+        if fermi:
+            op = "matmul" + ("_flip" if b.indices[0].dual else "") + ("_scalar" if scalar else "")
+        elif scalar:
+            op = "observe2"
+        else:
+            op = "tensordot_blockwise"
+        add(op, f"matmul {na}D@{nb}D", [a, b], lambda ip, a, b: a @ b)
+    if fermi:
+        a = arr(2)
+        if a.indices[0].dual != a.indices[1].dual:
+            add("matmul_flip" if a.indices[0].dual else "matmul", "matmul (same object twice)", [a, a],
+                lambda ip, a, b: a @ b)
+    # constructors: no operand, a new object with new dicts
+    x0 = arr()
+    kw = {} if type(x0).static_symmetry else {"symmetry": x0.symmetry}
+    d = dict(x0.blocks)
+    add("construct", "cls(indices, charge, blocks=d)", [],
+        lambda ip, cls=type(x0), ix=x0.indices, c=x0.charge, d=d, kw=kw: _not_the_callers_dict(
+            cls(indices=ix, charge=c, blocks=d, **kw), d))
+    add("from_fill", "from_fill_fn", [],
+        lambda ip, cls=type(x0), ix=x0.indices, c=x0.charge, kw=kw: cls.from_fill_fn(
+            lambda shape: np.ones(shape), ix, c, **kw))
+    # block vectors: in-place and reflected arithmetic (instances of `binaryA` / `scalarOp`)
+    x = arr()
+    v = gen.rand_vec(rng, x.indices[0], keep=1.0)
+    v.apply_to_arrays(lambda b: np.abs(b) + 1)  # no zeros: `/` and `**` stay finite
+    w = v.copy()
+    w.apply_to_arrays(lambda b: b + 2)
+    for op, label, f_out, f_in in [
+        ("add", "vec + vec", lambda a, b: a + b, lambda a, b: a.__iadd__(b)),
+        ("sub", "vec - vec", lambda a, b: a - b, lambda a, b: a.__isub__(b)),
+        ("sub", "vec / vec", lambda a, b: a / b, lambda a, b: a.__itruediv__(b)),
+        ("sub", "vec ** vec", lambda a, b: a ** b, lambda a, b: a.__ipow__(b)),
+    ]:
+        add(op, label, [v.copy(), w.copy()], lambda ip, a, b, f=f_out, g=f_in: g(a, b) if ip else f(a, b))
+        vv = v.copy()
+        add(op, label + " (same object twice)", [vv, vv],
+            lambda ip, a, b, f=f_out, g=f_in: g(a, b) if ip else f(a, b))
+    w2 = v.copy()
+    if w2.blocks:
+        w2.blocks.pop(next(iter(w2.blocks)))
+    add("add", "vec + vec (missing block)", [w2, w.copy()],
+        lambda ip, a, b: a.__iadd__(b) if ip else a + b)
+    for label, f_out, f_in in [
+        ("vec + 2", lambda a: a + 2, lambda a: a.__iadd__(2)), ("vec - 2", lambda a: a - 2, lambda a: a.__isub__(2)),
+        ("vec / 2", lambda a: a / 2, lambda a: a.__itruediv__(2)), ("vec ** 2", lambda a: a ** 2, lambda a: a.__ipow__(2)),
+        ("vec * 2", lambda a: a * 2, lambda a: a.__imul__(2)),
+    ]:
+        add("scalar", label, [v.copy()], lambda ip, a, f=f_out, g=f_in: g(a) if ip else f(a))
+    for label, f in [("2 + vec", lambda a: 2 + a), ("2 - vec", lambda a: 2 - a), ("2 / vec", lambda a: 2 / a),
+                     ("2 ** vec", lambda a: 2 ** a), ("-vec", lambda a: -a), ("vec.clip", lambda a: a.clip(0, 1))]:
+        add("scalar", "neg", [v.copy()], lambda ip, a, f=f: f(a))
+
+
+def _not_the_callers_dict(x, d):
+    """the constructors store `dict(d)`: mutating the caller's dict afterwards must not show in the array"""
+    keys = list(x.blocks)
+    d[("caller",)] = 0
+    if list(x.blocks) != keys or x.blocks is d:
+        raise AssertionError("constructor kept the caller's dict")
+    return x
 
 
 def value(x):
@@ -238,7 +363,8 @@ def run_real(rng, rounds):
                         continue  # no in-place form
                     flagm = True if op in ALWAYS_INPLACE else flag  # methods without a switch are in place
                     rec = dict(op=op, label=label, operands=operands, sym=sym, fermi=fermi, inplace=flagm,
-                               case=dict(kind="heapOp", op=op, inplace=flagm, operands=describe(operands)),
+                               case=dict(kind="heapOp2" if op in MODEL_OPS2 else "heapOp", op=op, inplace=flagm,
+                                         fermi=fermi, operands=describe(operands)),
                                held=[_dicts(o) for o in operands],  # keeps identities unique
                                before=[snap(o) for o in operands])
                     rec["out_value"] = None
@@ -321,6 +447,28 @@ def check_sharing(ctx, rounds=None):
             if len(mres) != len(results):
                 ctx.correspondence_broken("heap-model", f"{op}: {len(results)} array results, model {len(mres)}")
                 mres = None
+        # (2a) a bare dict result (`get_params`): is it a dict object of an operand?
+        if isinstance(res, dict):
+            shared_d = [i for i, (b, p) in enumerate(rec["held"]) if res is b or (p is not None and res is p)]
+            m_d = None
+            if pred is not None:
+                md = [r for r in pred["results"] if r.get("not_an_array")]
+                if len(md) != 1:
+                    ctx.correspondence_broken("heap-model", f"{op}: one dict result, model {len(md)}")
+                else:
+                    m_d = md[0]["dict_shared"]
+            if shared_d != (m_d if m_d is not None else []):
+                ctx.disagreements_checked += 1
+                now = [snap(o) for o in operands]
+                res.clear()
+                leaked = [i for i, o in enumerate(operands) if snap(o) != now[i]]
+                if leaked:
+                    ctx.violation(f"{what}: the returned dict IS a dict of operand(s) {shared_d}; clearing it "
+                                  f"changed them", case, op=op)
+                else:
+                    ctx.correspondence_broken("heap-identity", f"{what}: dict result shared with {shared_d}, "
+                                              f"model {m_d}")
+            continue
         # (2) identity of the returned objects and of their dicts
         for k, r in enumerate(results):
             is_op = next((i for i, o in enumerate(operands) if r is o), None)
